@@ -6,6 +6,7 @@ package main
 // "every other pre-existing location is unchanged".
 
 import (
+	"fmt"
 	"go/token"
 	"go/types"
 	"sort"
@@ -17,6 +18,8 @@ type modLoc struct {
 	srt  Sort
 	ref  *Term
 	idx  *Term // nil: the whole object / backing array / map
+	// member: a set of objects (the pointees of a slice of pointers, `xs[*].field`): membership of a reference
+	member func(r *Term) *Term
 }
 
 // evalModLocs evaluates the modifies clause of ct in the callee frame cf at state pre.
@@ -24,7 +27,42 @@ func (cf *Frame) evalModLocs(ct *Contract, pre *State) []modLoc {
 	var out []modLoc
 	for _, item := range ct.Modifies {
 		item = strings.TrimSpace(item)
-		if item == "" || item == "nothing" {
+		if item == "" || item == "nothing" || item == "spare-capacity" {
+			continue
+		}
+		if k := strings.Index(item, "[*]."); k > 0 {
+			// xs[*].field: the field of every object the slice xs points to
+			e, err := ParseSpecExpr(item[:k])
+			if err != nil {
+				sfail("modifies item %q: %v", item, err)
+			}
+			fieldName := item[k+len("[*]."):]
+			if j := strings.Index(fieldName, "."); j >= 0 {
+				fieldName = fieldName[:j] // a nested struct is stored as one value of its first-level field
+			}
+			se := cf.specEnv(pre, pre)
+			se.pol = 0
+			x := se.eval(e)
+			sl, ok := cf.subst(x.T).Underlying().(*types.Slice)
+			if !ok {
+				sfail("modifies %s: not a slice", item)
+			}
+			pt, ok := cf.subst(sl.Elem()).Underlying().(*types.Pointer)
+			if !ok {
+				sfail("modifies %s: not a slice of pointers", item)
+			}
+			si := cf.structInfo(pt.Elem())
+			fi := si.FieldIndex(fieldName)
+			if fi < 0 {
+				sfail("modifies %s: no field %s", item, fieldName)
+			}
+			xs := cf.asTerm(x.V)
+			E := cf.ctx.comp(pre, cf.eName(sl.Elem()), ArrS(SInt, ArrS(SInt, SInt)))
+			out = append(out, modLoc{comp: compF(si, fi), srt: ArrS(SInt, si.Fields[fi].Sort), member: func(r *Term) *Term {
+				quantCounter++
+				sv := Atom(fmt.Sprintf("s!mem%d", quantCounter), SInt)
+				return Exists([]*Term{sv}, And(Le(IntLit(0), sv), Lt(sv, SlcLen(xs)), Eq(Select(Select(E, SlcBase(xs)), Slot(SlcOff(xs), sv)), r)))
+			}})
 			continue
 		}
 		whole := false
@@ -128,7 +166,9 @@ func (f *Frame) frameAxiom(comp string, before, after *Term, locs []modLoc, limi
 		if l.comp != comp {
 			continue
 		}
-		if l.idx == nil || !twoLevel {
+		if l.member != nil {
+			cond = append(cond, Not(l.member(r)))
+		} else if l.idx == nil || !twoLevel {
 			cond = append(cond, Neq(r, l.ref))
 		} else {
 			partial = append(partial, l)
@@ -156,7 +196,9 @@ func (f *Frame) inModifies(comp string, ref, idx *Term) *Term {
 		if l.comp != comp {
 			continue
 		}
-		if l.idx == nil {
+		if l.member != nil {
+			alts = append(alts, l.member(ref))
+		} else if l.idx == nil {
 			alts = append(alts, Eq(ref, l.ref))
 		} else if idx != nil && idx.S == l.idx.S {
 			alts = append(alts, And(Eq(ref, l.ref), Eq(idx, l.idx)))
@@ -256,6 +298,10 @@ func (f *Frame) frameCheckCall(st *State, r *Term, callee string, locs []modLoc,
 	}
 	var all []*Term
 	for _, l := range locs {
+		if l.member != nil {
+			all = append(all, False) // a callee writing a set of objects: not supported inside a framed caller
+			continue
+		}
 		all = append(all, f.writeAllowed(st, l.comp, l.ref, l.idx))
 	}
 	f.check("frame", "call:"+callee, r, And(all...), pos)
@@ -278,4 +324,20 @@ func (f *Frame) assumeFrameSinceEntry(st *State, comps map[string]Sort) {
 		before := f.ctx.comp(top.entry, k, comps[k])
 		f.ctx.assume(f.frameAxiom(k, before, after, top.modLocs, top.entry.alloc))
 	}
+}
+
+
+// spareCapacity: the contract allows appends that write into the unused capacity of an existing
+// backing array (`modifies spare-capacity`): slots at or beyond the length of the slice appended to.
+// No length-limited view of that array can observe such a write.
+func spareCapacity(ct *Contract) bool {
+	if ct == nil {
+		return false
+	}
+	for _, it := range ct.Modifies {
+		if strings.TrimSpace(it) == "spare-capacity" {
+			return true
+		}
+	}
+	return false
 }
